@@ -7,6 +7,7 @@ import re
 import dyn
 
 PROBE = "0 | v"
+PROBE_LEFT = "v | 0"        # the variable on the left: shows a splice in front of a tighter-binding operator (`#expr >> 12`, `#expr & m`)
 INT_TYPES = {"u8", "u16", "u32", "u64", "i8", "i16", "i32", "i64", "usize", "isize"}
 
 
@@ -16,6 +17,36 @@ def twin(case):
         return None
     body = re.sub(r"(?<![\w.>])v(?![\w.(])", PROBE, case["body"])
     return None if body == case["body"] else dict(case, body=body)
+
+
+def twin_left(case):
+    vs = dict(case["vars"])
+    if vs.get("v") not in INT_TYPES:
+        return None
+    body = re.sub(r"(?<![\w.>])v(?![\w.(])", PROBE_LEFT, case["body"])
+    return None if body == case["body"] else dict(case, body=body)
+
+
+def compare_left(run, pid, focus, cases, reqs, results, per_case=8):
+    """second probe, `v | 0`: built in a crate of its own because a splice such as `#expr as u32` turns it into a COMPILE error (mismatched
+    types) — those cases are dropped (a compile error is not a silent difference), the others must behave exactly like `v`"""
+    twins, ix = [], {}
+    for i, c in enumerate(cases):
+        t = twin_left(c)
+        if t is not None:
+            ix[i] = len(twins)
+            twins.append(t)
+    if not twins:
+        return {"twins": 0}
+    ok, log, dropped = dyn.build_tolerant(pid + "L", twins)
+    if not ok:
+        run.violation("broken-correspondence", {"kind": "harness-build", "harness": "dyn-expression-twins"}, "the crate with `v | 0` operand twins does not build even after dropping the cases rustc rejects",
+                      {"log": log[-2500:]}, found_input=False)
+        return {"twins": len(twins), "built": False}
+    live = {i: j for i, j in ix.items() if j not in dropped}
+    st = compare(run, pid + "L", focus, cases + twins, {i: len(cases) + j for i, j in live.items()}, reqs, results, per_case, remap=lambda k: k - len(cases))
+    st["compile_errors"] = len(dropped)
+    return st
 
 
 def extend(cases):
@@ -29,7 +60,7 @@ def extend(cases):
     return out, ix
 
 
-def compare(run, pid, focus, all_cases, twin_ix, reqs, results, per_case=8):
+def compare(run, pid, focus, all_cases, twin_ix, reqs, results, per_case=8, remap=lambda k: k):
     """reqs/results: what the sweep ran on the original cases. Re-runs up to `per_case` of them per case (accepted and rejected ones) on the twin."""
     chosen, seen = [], {}
     for (ci, vals), (st, b) in zip(reqs, results):
@@ -41,7 +72,7 @@ def compare(run, pid, focus, all_cases, twin_ix, reqs, results, per_case=8):
             continue
         k[cls] += 1
         chosen.append((ci, vals, st, b))
-    tres = dyn.run(pid, [(twin_ix[ci], vals) for (ci, vals, _, _) in chosen])
+    tres = dyn.run(pid, [(remap(twin_ix[ci]), vals) for (ci, vals, _, _) in chosen])
     n = 0
     reported = set()
     for (ci, vals, st, b), (tst, tb) in zip(chosen, tres):
